@@ -13,6 +13,8 @@ m["confirmed_by_me"] = {"how": "tools/seedcheck.sh: patch applied to a scratch c
                          "demo_with_change": "exit 1", "demo_pristine": "exit 0", "pinned_suite": "stable_pass 415/415"}
 m["caught_by_checks_quick"] = [c for c in caught.split(",") if c]
 m["not_caught_by"] = [c for c in missed.split(",") if c]
+import subprocess
+m["repo_commit"] = subprocess.run(["git", "-C", "/repo", "rev-parse", "--short", "HEAD"], capture_output=True, text=True).stdout.strip()  # patch.diff applies to this commit of /repo
 if note: m["note"] = note
 (dst / "meta.json").write_text(json.dumps(m, indent=1) + "\n")
 print(dst, sorted(p.name for p in dst.iterdir()))
